@@ -3,10 +3,15 @@ NOTES = ("Technique family: runtime monitoring and sanitizers. Every check execu
          "stress workloads while an oracle (reference model, history checker, invariant hook, Go race detector / checkptr / ASan) "
          "watches. Verdicts are 'held on the executions observed'; evidence files say what was observed. See DESIGN.md.")
 ENGINES = [
+ {"name": "history", "path": "harness/internal/hist", "serves_properties": ["C02"], "kind_free_text": "client-boundary history recorder + porcupine linearizability checking against small sequential models (per-key partition), with witness shrinking"},
  {"name": "refmodel", "path": "harness/c*/ (E3)", "serves_properties": ["C03","C06","C14"], "kind_free_text": "reference-model monitor with exhaustive-to-depth and seeded random sequence generation; every observable compared after every call"},
 ]
 NOT_CLAIMED = {}
 CHECKS = {
+ "C02": dict(level="exploration", engine="history", ref="DESIGN.md §3 C02",
+   technique="client-boundary history recording + porcupine linearizability check against a per-key sequential model; outcome-class and version-injectivity monitors; Go race detector; miniredis pre-hook delay injection",
+   text="Thousands (quick 6 000, thorough 300 000) of short concurrent histories (2-8 clients x 4-12 operations, 1-3 keys; mixed, racing-creators and racing-CAS flavours) are produced on both backends under the race detector, with random per-command delays injected on the Redis server side. Each history is checked by porcupine against the per-key sequential model (unique values make reads identify writes), every error outside the documented outcomes is a violation, the map version -> write must be injective over the history, and at most one CAS per expected version may win. Held = all observed histories linearizable and clean; found and repaired the Redis CAS-loser defect.",
+   note="Trusted: porcupine, the sequential model (harness/internal/hist), miniredis. Only interleavings that the scheduler and the injected delays produced are judged; evidence reports how many histories had real overlap."),
  "C03": dict(level="exploration", engine="refmodel", ref="DESIGN.md §3 C03",
    technique="runtime reference-model monitor: executable contract model of kvs.Storage compared call by call with each backend (inmem; Redis on in-process miniredis) over exhaustive-to-depth and random operation sequences",
    text="All sequences over 39 operation instances to depth 3 (quick) / 4 (thorough) and seeded random sequences of length 30-200 are executed against the in-memory backend and against the Redis backend (miniredis); after every call error class, returned record, version relations (fresh, reported-with-ErrExist, CAS outcome) and ListKeys (as a set) are compared with the contract model, optionally with a full observation (GetMany of all keys + ListKeys) after every step. Held = no divergence on the sequences executed; found and repaired 3 Redis defects.",
